@@ -33,7 +33,12 @@ for name in sorted(os.listdir(V)):
         nm=re.search(r'(needed[^\n]*manifest[^\n]*|What is needed[^\n]*|Trigger[^\n]*)\n?((?:.|\n){0,700})',sec,re.I)
         need=clean((nm.group(0) if nm else '')[:520])
         need=re.sub(r'^(#+\s*)?(\*\*)?(What is needed( for it)? to manifest|Needed to manifest|What is needed)(\*\*)?[:.]?\s*(\(all of( it)?\))?:?','',need,flags=re.I).strip(' :*')
-        OVERRIDE={}
+        OVERRIDE={
+          "C04-13":"SigV4Authenticator remembers (OnceLock) that prevalidate succeeded once and answers Ok from then on, whatever server time it is asked about (src/auth.rs)",
+          "C04-14":"normalize_header_value takes a fast path for values without a leading blank or a run of blanks and forgets the single trailing blank (src/canonical.rs)",
+          "C13-13":"percent escapes decoded with u8::from_str_radix (accepts '%+F') instead of hex::decode (src/canonical.rs, normalize_uri_element)",
+          "C13-14":"the 'path is not absolute' check moved into the non-S3 branch: in S3 mode '*' is accepted (src/canonical.rs, canonicalize_uri_path)",
+        }
         if name in OVERRIDE: change=OVERRIDE[name]
         change=re.sub(r'\)? ?Chan(ge)?$','',change).strip()
         meta={"property":name.split('-')[0],"source":"independent sub-agent given only the property text and a scratch worktree of /repo (seventh round: same brief; the notes of the twelve changes already delivered for the property were in its output directory; the agent was told to think about what kind of test would find each earlier change and to invent something such tests would still miss)",
